@@ -357,7 +357,7 @@ func nontrivial(c caseT, ans map[string]string) bool {
 
 func main() {
 	run := common.NewRun("C15")
-	run.Res.Rule = "cases = generated packages (2–14 declarations: int/struct/method-value/blank variables, multi-value declarations (also with a blank name, also with the callee declared after everything else) and paired declarations, package-level comma-ok declarations `var v, ok = mp[…]` with their map declared before or after them, variables without value (one or two names), functions, functions with parameter, methods, function literals, locals / parameters of function literals / field keys named like a package-level variable, references to any variable from function and method bodies, 0–3 init functions anywhere among them — in several files in directory mode —, main; 55% also declare 1–7 things that look like init functions and are not: methods named init with value / pointer receiver, functions Init, init_, initX, a function with a local variable init, a struct type with a field init, each logging when — and only when — main calls it after it logged itself) built over a hidden acyclic order and declared in that order / slightly permuted / shuffled; 10% get one extra reference against the hidden order (cycles, self references); 25% are split over several files and loaded as a directory (importSrc); 20% import 1–4 generated packages forming a DAG (each with its own init functions and look-alikes, half of them split over several files); every initialiser logs its label and its operands, every init function and main log; 57% use every construct, 8% mostly variables and specifications declaring several variables, 35% only direct references between variables; non-trivial = at least three initialisation expressions and (a forward reference, or a class other than in-domain, or several packages); distinct = distinct protocol line + mode"
+	run.Res.Rule = "cases = generated packages (2–14 declarations: int/struct/method-value/blank variables, multi-value declarations (also with a blank name, also with the callee declared after everything else) and paired declarations, package-level comma-ok declarations `var v, ok = mp[…]` with their map declared before or after them, variables of function type initialised by function literals whose bodies refer to other variables / functions / such variables (11% of the entities, main and imported packages) and that other initialisers and bodies call or pass as values, variables without value (one or two names), functions, functions with parameter, methods, function literals, locals / parameters of function literals / field keys named like a package-level variable, references to any variable from function and method bodies, 0–3 init functions anywhere among them — in several files in directory mode —, main; 55% also declare 1–7 things that look like init functions and are not: methods named init with value / pointer receiver, functions Init, init_, initX, a function with a local variable init, a struct type with a field init, each logging when — and only when — main calls it after it logged itself) built over a hidden acyclic order and declared in that order / slightly permuted / shuffled; 10% get one extra reference against the hidden order (cycles, self references); 25% are split over several files and loaded as a directory (importSrc); 20% import 1–4 generated packages forming a DAG (each with its own init functions and look-alikes, half of them split over several files); every initialiser logs its label and its operands, every init function and main log; 57% use every construct, 8% mostly variables and specifications declaring several variables, 35% only direct references between variables; non-trivial = at least three initialisation expressions and (a forward reference, or a class other than in-domain, or several packages); distinct = distinct protocol line + mode"
 	defer run.Finish()
 	drv, err := common.StartDriver("C15")
 	if err != nil {
